@@ -93,7 +93,7 @@ def _lines(d, rng, seed, n, fam):
     else:
         gen = [instgen.gen_instance(rng, {"slots": rng.choice(["some", "some", "none"]),
                                           "depots": rng.choice(["ample", "absent", "ample", "scarce"]),
-                                          "maxdist": rng.choice(["small", "mid", "large", "absent"])}) for _ in range(n)]
+                                          "maxdist": rng.choice(["small", "mid", "large", "absent", "spread", "spread"])}) for _ in range(n)]
         rs = [r for r in lib.pmap(c15.run_case, [(d, 80000 + k, inst, seed + 9, "quick") for k, inst in enumerate(gen)]) if r]
         strip = ("TINV ", "ICHK ", "TOS ")
     out = []
